@@ -471,7 +471,7 @@ proof fn lemma_round_trip(x: i64, radix: int, out: Seq<char>)
 # ------------------------------------------------------------------------------------------------
 TGT_SAME = "final(ctx).target == old(ctx).target"
 UNITS["v_target_ops"] = dict(
-    prop=["C17", "C06", "C07", "C16"], tier="q", prelude=["interp.rs", "target.rs"],
+    prop=["C17", "C06", "C07", "C16"], tier="q", prelude=["interp.rs", "target.rs"], native_witness={"C17": ["target_faults"]},
     fns=[
         dict(id="external_path", file=EXPR + "query.rs", impl="impl Query", name="external_path",
              orig_sig="fn external_path(&self) -> Option<OwnedTargetPath>",
@@ -580,6 +580,13 @@ UNITS["v_read_only"] = dict(
                       ("C15.is_read_only.no_reach", "an accepted write can not reach any read-only location: no entry is (possibly) at, below or - for recursive entries - above the written path, counting negative/non-negative index aliasing",
                        "!r ==> forall|k: int| 0 <= k < self.read_only_paths@.len() ==> !may_reach(#[trigger] self.read_only_paths@[k], *path)")],
              safety_id="C15.is_read_only.safety"),
+        dict(id="set_read_only_path", file="src/compiler/compile_config.rs", impl="impl CompileConfig", name="set_read_only_path",
+             orig_sig="fn set_read_only_path(&mut self, path: OwnedTargetPath, recursive: bool)",
+             wrap=("impl CompileConfig {", "}"), sig="pub fn set_read_only_path(&mut self, path: OwnedTargetPath, recursive: bool)",
+             rewrites=[dict(**{"from": r"self\.read_only_paths\s*\.insert\(", "to": "set_insert(&mut self.read_only_paths, ", "regex": True, "count": 1, "why": "BTreeSet::insert on the entry set (std contract set_insert)"})],
+             ensures=[("C15.set_read_only_path.registers", "marking a path read-only always registers that entry (with its recursive flag) and keeps every entry registered before",
+                       "has_entry(final(self).read_only_paths@, ReadOnlyPath { path: path, recursive: recursive }) && forall|x: ReadOnlyPath| has_entry(old(self).read_only_paths@, x) ==> has_entry(final(self).read_only_paths@, x)")],
+             safety_id="C15.set_read_only_path.safety"),
         dict(id="verify_mutable", file="src/compiler/expression/assignment.rs", impl=None, name="verify_mutable",
              orig_sig="fn verify_mutable( target: &Target, config: &CompileConfig, expr_span: Span, assignment_span: Span, ) -> Result<(), Error>",
              sig="pub fn verify_mutable(target: &Target, config: &CompileConfig, expr_span: Span, assignment_span: Span) -> (r: Result<(), Error>)",
